@@ -77,8 +77,20 @@ def case_term(o, fx=None):
     proj = projection(fx) if o["kind"] == "out" else ""
     if not all(ord(ch) < 127 for ch in proj):
         proj = ""
-    return "(mkCase %s %s %s %s %s %s)" % (C.coq_str(o["id"]), o["input"], o["config"], o["args"], t,
-                                         C.coq_str(proj))
+    return "(mkCase %s %s %s %s %s %s %d)" % (C.coq_str(o["id"]), o["input"], o["config"], o["args"], t,
+                                            C.coq_str(proj), mid_position(o)[1])
+
+
+def mid_position(o):
+    """(name, k): a file name that sorts directly after the first source file, and the number of
+    import specs in the files before it -- where a generated file of that name joins the alias scan"""
+    sf = o.get("spec_files") or []
+    if not sf:
+        return "a0mid_moq_verif.go", 0
+    first = sorted(x["name"] for x in sf)[0]
+    name = first[:-3] + "0mid_moq_verif.go" if first.endswith(".go") else "a0mid_moq_verif.go"
+    k = sum(x["specs"] for x in sf if x["name"] < name)
+    return name, k
 
 
 def evaluate(obs, name="l2", facts=None):
